@@ -31,7 +31,14 @@ def num(q):
     return render.number_text(render.q_fraction(q), CFG["dec"], CFG["tho"])
 
 
+# lines that only built-in rules touch: whatever is registered or deleted through the API (also under a built-in rule's name), they
+# evaluate like on a fresh calculator
+BUILTIN_LINES = ["10 usd to try", "3 hours 30 minutes as minutes", "12/2/2020 + 3 days", "25% of 80"]
+
+
 def line_text(line):
+    if line["form"] == "opaque":
+        return line["text"]
     if line["form"] == "rule_line":
         if line["pat"] == "P1":
             return "zorp " + num(line["n"])
@@ -110,7 +117,7 @@ def run(rep):
                 texts.add(line_text(h["line"]))
     if not {"baseline", "num", "money", "famq"} <= kinds:
         raise ToolError("vacuous generator: %s" % kinds)
-    base = baseline_slots(sorted(texts))
+    base = baseline_slots(sorted(texts | set(BUILTIN_LINES)))
     cases = [{"id": "h%d" % i, "cfg": CFG, "fresh": True, "steps": [step_of(h) for h in c["hist"]]} for i, c in enumerate(hists)]
     obs = run_harness_stable_day(cases, "c18.gen", jobs=8)
     for c, case, o in zip(hists, cases, obs):
@@ -214,6 +221,9 @@ def random_trace(rep, base, nhist):
              {"form": "rule_line", "pat": "P3", "n": [7, 1, 0], "w": "frob"}, {"form": "rule_line", "pat": "P3", "n": [7, 1, 0], "w": "snarf"},
              {"form": "fam_conv", "fam": "zorps", "q": [40, 1, 0], "a": 1, "b": 2}, {"form": "fam_conv", "fam": "zorps", "q": [3, 1, 0], "a": 3, "b": 1},
              {"form": "fam_conv", "fam": "zorps", "q": [40, 1, 0], "a": 1, "b": 3}, {"form": "fam_conv", "fam": "zorps", "q": [2, 1, 0], "a": 2, "b": 1}]
+    lines += [{"form": "opaque", "id": i, "text": t} for i, t in enumerate(BUILTIN_LINES)]
+    # a custom rule may carry the name of a built-in rule; deleting by a built-in rule's name deletes custom rules only
+    rules = RULES + [{"name": "convert_money", "pats": ["P2"], "beh": "double"}]
     items = [{"idx": 1, "up": [1, 4, 0], "down": [1, 1, 0]}, {"idx": 2, "up": [1, 5, 0], "down": [4, 1, 0]}, {"idx": 3, "up": [1, 1, 0], "down": [5, 1, 0]},
              {"idx": 2, "up": [1, 2, 0], "down": [3, 1, 0]}]
     cases, metas = [], []
@@ -222,9 +232,9 @@ def random_trace(rep, base, nhist):
         for _ in range(rng.randint(30, 80)):
             x = rng.random()
             if x < 0.25:
-                hs.append({"call": "add_rule", "lang": "xx" if rng.random() < 0.1 else "en", "r": rng.choice(RULES)})
+                hs.append({"call": "add_rule", "lang": "xx" if rng.random() < 0.1 else "en", "r": rng.choice(rules)})
             elif x < 0.4:
-                hs.append({"call": "delete_rule", "lang": "en", "name": rng.choice(["n1", "n2", "n3", "n4", "n9"])})
+                hs.append({"call": "delete_rule", "lang": "en", "name": rng.choice(["n1", "n2", "n3", "n4", "n9", "convert_money", "small_date", "duration_parse", "number_of"])})
             elif x < 0.45:
                 hs.append({"call": "add_type", "name": "zorps"})
             elif x < 0.55:
